@@ -25,96 +25,131 @@ TITLE = "Elements pass values they do not select through unchanged"
 LEAN_MODULES = ["LenaModel.Props.C10"]
 LEAN_SOURCES = ["LenaModel/Model/C10.lean", "LenaModel/Lemmas/C10.lean", "LenaModel/Props/C10.lean"]
 DRIVER = "drivers/C10.lean"
+# the theorems that carry the property (Props/C10.lean; the numbers are the sections of that file)
 THEOREMS = [
+    # 1. the generic law for `for val in flow: <body>` with a body that passes what `sel` rejects
     "Lena.C10.interleave_law",
-    "Lena.C10.interleave_out",
     "Lena.C10.selected_independent",
     "Lena.C10.selected_independent_of_pattern",
     "Lena.C10.unselected_same_objects_in_order",
+    "Lena.C10.unselected_sublist_of_out",
     "Lena.C10.state_untouched_by_unselected",
     "Lena.C10.every_flow_is_an_interleaving",
     "Lena.C10.run_determined_by_selected",
-    "Lena.C10.toCSV_passes",
-    "Lena.C10.write_passes",
-    "Lena.C10.render_passes",
-    "Lena.C10.png_passes",
-    "Lena.C10.histToGraph_passes",
+    # 2. the transcribed loop bodies pass what the DOCUMENTED selection rule (…Doc, written over docGet) rejects
+    "Lena.C10.toCSV_passes_doc",
+    "Lena.C10.write_passes_doc",
+    "Lena.C10.render_passes_doc",
+    "Lena.C10.png_passes_doc",
+    "Lena.C10.histToGraph_passes_doc",
+    "Lena.C10.mapGroup_passes_doc",
     "Lena.C10.iterateBins_passes",
     "Lena.C10.mapBins_passes",
     "Lena.C10.runIf_passes",
-    "Lena.C10.mapGroup_passes",
-    "Lena.C10.toCSV_interleave",
-    "Lena.C10.write_interleave",
-    "Lena.C10.render_interleave",
-    "Lena.C10.png_interleave",
-    "Lena.C10.histToGraph_interleave",
-    "Lena.C10.iterateBins_interleave",
-    "Lena.C10.mapBins_interleave",
-    "Lena.C10.runIf_interleave",
-    "Lena.C10.mapGroup_interleave",
-    "Lena.C10.toCSV_state_untouched",
-    "Lena.C10.render_state_untouched",
-    "Lena.C10.histToGraph_state_untouched",
-    "Lena.C10.iterateBins_state_untouched",
-    "Lena.C10.mapBins_state_untouched",
+    # 3. recorded behaviour of Write's "already written" branch
     "Lena.C10.write_already_written",
-    "Lena.C10.toCSV_same_object_iff",
-    "Lena.C10.render_same_object_iff",
-    "Lena.C10.png_same_object_iff",
-    "Lena.C10.histToGraph_same_object_iff",
-    "Lena.C10.iterateBins_same_object_iff",
-    "Lena.C10.mapBins_same_object_iff",
-    "Lena.C10.mapGroup_same_object_iff",
-    "Lena.C10.pdf_unselected_step",
+    "Lena.C10.write_already_written_adds_output",
+    # 4. LaTeXToPDF (process pool): identity/order, file system, exception, multiset; a used object
     "Lena.C10.pdf_unselected_same_objects_in_order",
     "Lena.C10.pdf_unselected_touches_only_pool_files",
-    "Lena.C10.keysOK_of_keysOKb",
+    "Lena.C10.pdf_fs_untouched_elsewhere",
+    "Lena.C10.pdf_fs_untouched_of_unselected",
+    "Lena.C10.pdf_loop_spec",
+    "Lena.C10.pdf_loop_err",
+    "Lena.C10.pdf_err_determined",
+    "Lena.C10.pdf_err_independent",
     "Lena.C10.pdf_selected_multiset",
     "Lena.C10.pdf_selected_independent",
-    "Lena.C10.pdf_loop_spec",
+    "Lena.C10.pdf_failing_run_independent_full_false",
+    "Lena.C10.pdf_from_unselected_same_objects_in_order",
+    "Lena.C10.pdf_from_err_determined",
+    "Lena.C10.pdf_from_selected_multiset",
+    # 4b/4c. pipelines, loops with a tail (GroupPlots)
     "Lena.C10.pipe_passes",
     "Lena.C10.pipeAll_passes",
     "Lena.C10.insert_invisible_before",
     "Lena.C10.insert_invisible_after",
     "Lena.C10.pipeline_interleave",
-    "Lena.C10.liftFS_passes",
-    "Lena.C10.unselected_sublist_of_out",
-    "Lena.C10.write_already_written_adds_output",
     "Lena.C10.interleave_law_tail",
-    "Lena.C10.groupPlots_passes",
-    "Lena.C10.groupPlots_interleave",
-    "Lena.C10.local_of_localB",
+    # 4d. locality: reference semantics = value-passing semantics
     "Lena.C10.shared_eq_loop_of_local",
-    "Lena.C10.toCSV_ctxLocal",
-    "Lena.C10.write_ctxLocal",
-    "Lena.C10.render_ctxLocal",
-    "Lena.C10.png_ctxLocal",
-    "Lena.C10.histToGraph_ctxLocal",
-    "Lena.C10.write_shared_interleave",
+]
+# instances, unfoldings, glue and free theorems: audited, not counted as proof obligations of the property
+AUX_THEOREMS = [
+    "Lena.C10.interleave_out",
+    "Lena.C10.toCSV_passes", "Lena.C10.write_passes", "Lena.C10.render_passes", "Lena.C10.png_passes",
+    "Lena.C10.histToGraph_passes", "Lena.C10.mapGroup_passes", "Lena.C10.groupPlots_passes",
+    "Lena.C10.docGet_eq_getRec", "Lena.C10.toCSVSel_eq_doc", "Lena.C10.writeSel_eq_doc", "Lena.C10.isCsv_eq_doc",
+    "Lena.C10.pngSel_eq_doc", "Lena.C10.pdfSel_eq_doc", "Lena.C10.histToGraphSel_eq_doc", "Lena.C10.mapGroupSel_eq_doc",
+    "Lena.C10.toCSV_interleave", "Lena.C10.write_interleave", "Lena.C10.render_interleave", "Lena.C10.png_interleave",
+    "Lena.C10.histToGraph_interleave", "Lena.C10.iterateBins_interleave", "Lena.C10.mapBins_interleave",
+    "Lena.C10.runIf_interleave", "Lena.C10.mapGroup_interleave", "Lena.C10.groupPlots_interleave",
+    # free theorems of "this loop body is polymorphic in the state" (the clause "without touching the file system"
+    # for these five elements rests on the harness's directory snapshots)
+    "Lena.C10.toCSV_state_untouched", "Lena.C10.render_state_untouched", "Lena.C10.histToGraph_state_untouched",
+    "Lena.C10.iterateBins_state_untouched", "Lena.C10.mapBins_state_untouched",
+    # true of any model whose new objects are made with `mk` / `Tok.made`
+    "Lena.C10.toCSV_same_object_iff", "Lena.C10.render_same_object_iff", "Lena.C10.png_same_object_iff",
+    "Lena.C10.histToGraph_same_object_iff", "Lena.C10.iterateBins_same_object_iff", "Lena.C10.mapBins_same_object_iff",
+    "Lena.C10.mapGroup_same_object_iff",
+    "Lena.C10.pdf_unselected_step", "Lena.C10.keysOK_of_keysOKb", "Lena.C10.liftFS_passes", "Lena.C10.local_of_localB",
+    "Lena.C10.pdfRun_eq_from", "Lena.C10.pdf_from_pool_after",
+    "Lena.C10.toCSV_ctxLocal", "Lena.C10.write_ctxLocal", "Lena.C10.render_ctxLocal", "Lena.C10.png_ctxLocal",
+    "Lena.C10.histToGraph_ctxLocal", "Lena.C10.iterateBins_ctxLocal", "Lena.C10.mapBins_ctxLocal",
+    "Lena.C10.runIf_ctxLocal", "Lena.C10.write_shared_interleave",
 ]
 TRUSTED = [
     "Lean 4.33.0 kernel; axioms limited to propext, Classical.choice, Quot.sound (audited by #print axioms on every run)",
     "hand transcription of the run loops of ToCSV, Write, RenderLaTeX, LaTeXToPDF, PDFToPNG, HistToGraph, MapBins, "
-    "IterateBins, RunIf, MapGroup into LenaModel/Model/C10.lean, validated by this correspondence check",
-    "the harness's own Python reference of each element's documented selection rule (ref_selected), used to sort "
-    "generated values into A (selected) and B (unselected)",
+    "IterateBins, RunIf, MapGroup, GroupPlots into LenaModel/Model/C10.lean, validated — not proved — by this "
+    "correspondence check on the generated cases",
+    "the documented selection rules: written twice, independently of the loops — in Lean (`toCSVDoc`, `writeDoc`, "
+    "`renderDoc`, `pdfDoc`, `pngDoc`, `histToGraphDoc`, `mapGroupDoc` over `docGet`; proved equal to the guards "
+    "transcribed from the code) and in Python (ref_selected, used to sort generated values into A and B); the two are "
+    "compared on every generated value.  For IterateBins / MapBins / RunIf / GroupPlots the rule is the user's "
+    "selector itself",
+    "the stand-ins for user-supplied callables (Model/C10.lean: SelSpec/evalSel for lena.flow.Selector, "
+    "InnerKind/innerApply, CellInnerKind, KeyKind, SelTemplateKind) and their Python twins in this module "
+    "(_make_selector, _Id, _Dup, …): a second hand transcription, of the harness's own classes; no theorem depends "
+    "on them (the theorems quantify over all functions in these places)",
     "JSON line protocol encoders (harness/props/c10.py, drivers/C10.lean)",
 ]
 ASSUMPTIONS = [
+    "selection predicates, select_template, group_by and inner sequences are functions of the value (and, for inner "
+    "sequences, of an explicit state) in the model; a real Selector that raises or keeps hidden state is outside",
     "payload shape: a produced CSV text is modelled by its number of lines (that is where duplicate_last_bin and the "
     "header show); its characters are compared between the two real runs by the oracle only",
+    "payload abstraction: the text of a produced CSV/LaTeX value, the points of a produced graph, and the context "
+    "entries histogram/value/bins/bin/group are uninterpreted in the model (compared between the two real runs by "
+    "the oracle, not with the model); `intact` sees foreign objects through their class and `id` attribute and "
+    "graphs through repr only",
     "locality (hypothesis `Local` of the token model, Props/C10.lean section 4d): distinct flow values do not share "
     "mutable context objects.  It is needed: on flows that violate it the real code fails the property (aliasing "
     "cases, labels alias:ctx-shared:property-fails) exactly as the model's reference semantics predicts; under "
-    "Local the reference semantics and the value-passing loops coincide (shared_eq_loop_of_local)",
+    "Local the reference semantics and the value-passing loops coincide (shared_eq_loop_of_local; CtxLocal proved "
+    "for ToCSV, Write, RenderLaTeX, PDFToPNG, HistToGraph, IterateBins, MapBins, for RunIf under the same hypothesis "
+    "on its inner sequence; MapGroup and LaTeXToPDF: correspondence only)",
+    "the file system for ToCSV, RenderLaTeX, HistToGraph, IterateBins, MapBins: their transcribed loop bodies are "
+    "polymorphic in the state, so `…_state_untouched` are free theorems; that the real elements do not touch the "
+    "directory rests on the per-value directory snapshots of the oracle",
     "pipelines: every modelled element finishes the side effects of a step before its first yield, so a Sequence is "
-    "modelled at the granularity of blocks (pipeStep); validated by the correspondence on 8 pipelines",
-    "payload abstraction: the text of a produced CSV/LaTeX value, the points of a produced graph, and the context "
-    "entries histogram/value/bins/bin/group are uninterpreted in the model (compared between the two real runs by "
-    "the oracle, not with the model)",
-    "converters (pdflatex, pdftoppm) are stubs that write their output file; when a LaTeXToPDF process terminates "
-    "is an explicit schedule (per process: the iteration from which poll() reports termination, the return code)",
-    "LaTeXToPDF: selected values of one flow have pairwise different file names",
+    "modelled at the granularity of blocks (pipeStep); validated by the correspondence on 10 pipelines.  Pipelines "
+    "that contain LaTeXToPDF or GroupPlots (a pool / a tail: inserting LaTeXToPDF delays and reorders what the next "
+    "element receives) are NOT covered by pipeStep, insert_invisible_* and pipeline_interleave",
+    "LaTeXToPDF: weaker claim than for the other elements, by necessity — results of selected values are compared as "
+    "multisets and only for runs that end normally (pdf_failing_run_independent_full_false: for failing runs the "
+    "statement is false of the code, the timing of the external processes decides); selected values of one flow "
+    "(and of the flows one object is used for) have pairwise different file names and no tex name is a pdf name "
+    "(KeysOK); the final file system is characterised by where it may differ (pdf_fs_untouched_elsewhere), not by a "
+    "full equality; converters (pdflatex, pdftoppm) are stubs that write the expected output file into an existing "
+    "directory, with content independent of the source; when a process terminates is an explicit schedule (per "
+    "process: the iteration of the current run from which poll() reports termination, and the return code)",
+    "Write: an object that writes itself (`data.write(path)`) opens the file without creating directories (lena does "
+    "not create them in that branch); an existing path that is a directory is outside the model",
+    "modification times: a logical clock in the model, os.utime'd values below the wall clock in the harness (new "
+    "files get `now`)",
+    "`Exc.unmodelled`: the model declines; a generated case that reaches it is reported as a disagreement, so the "
+    "theorems speak about lena only for the cases the correspondence accepts",
 ]
 RULE = ("per element configuration (the 10 elements of the statement plus GroupPlots, each with several constructor "
         "settings / selectors / inner sequences — RenderLaTeX with string and callable select_template, select_data, "
@@ -157,15 +192,20 @@ class BadWrite(object):
 
 
 class Writable(object):
+    """an object that writes itself; like most, it does not create the directory"""
     def __init__(self, id):
         self.id = id
 
     def write(self, filepath):
-        d = os.path.dirname(filepath)
-        if d and not os.path.exists(d):
-            os.makedirs(d)
         with open(filepath, "w") as f:
             f.write("OBJ%d" % self.id)
+
+
+class LookAlike(object):
+    """a foreign object that has the attributes of a histogram — not a histogram"""
+    def __init__(self, id):
+        self.id = id
+        self.bins, self.edges, self.dim, self.nbins, self.ranges = [1, 2], [0, 1, 2], 1, [2], [(0, 2)]
 
 
 class Rows(object):
@@ -183,6 +223,11 @@ class Rows(object):
 class RowsUpd(Rows):
     def _update_context(self, context):
         context["value"] = {"rows": self.id}
+
+
+class BadRows(Rows):
+    """an attribute `rows` that is not a method (a table object holding its rows)"""
+    rows = [(1, 2), (3, 4)]
 
 
 class Inner1(Exception):
@@ -249,7 +294,17 @@ def build_data(d, root):
     if k == "badwrite":
         return BadWrite(d["id"])
     if k == "rows":
+        if d["rk"] == "notcallable":
+            return BadRows(d["id"], d["rk"])
         return (RowsUpd if d["upd"] else Rows)(d["id"], d["rk"])
+    if k == "lookalike":
+        return LookAlike(d["id"])
+    if k == "bool":
+        return True
+    if k == "set":
+        return {d["id"], -1}
+    if k == "gen":
+        return (x for x in (d["id"], 2))
     if k == "hist":
         shape = d["shape"]
         cells = iter([_cell(d["bin"], d["id"], i) for i in range(_prod(shape))])
@@ -303,6 +358,14 @@ def model_data(d):
         return {"k": "other", "cls": "dict", "id": 0, "iter": True}
     if k == "badwrite":
         return {"k": "other", "cls": "BadWrite", "id": d["id"], "iter": False}
+    if k == "lookalike":
+        return {"k": "other", "cls": "LookAlike", "id": d["id"], "iter": False}
+    if k == "bool":
+        return {"k": "other", "cls": "bool", "id": 0, "iter": False}
+    if k == "set":
+        return {"k": "other", "cls": "set", "id": 0, "iter": True}
+    if k == "gen":
+        return {"k": "other", "cls": "generator", "id": 0, "iter": True}
     if k == "seq":
         return {"k": "seq", "tuple": d["tuple"], "items": [model_data(x) for x in d["items"]]}
     if k == "writable":
@@ -357,7 +420,7 @@ def _get(ctx, path, default):
     return d[keys[-1]] if keys[-1] in d else default
 
 
-_CLS = {"int": ("int",), "str": ("str",), "histogram": ("hist",), "tuple": ("seq:t",), "list": ("seq:l",),
+_CLS = {"int": ("int", "bool"), "str": ("str",), "histogram": ("hist",), "tuple": ("seq:t",), "list": ("seq:l",),
         "Foreign": ("obj",), "float": ("float",), "NoneType": ("none",), "dict": ("baredict",), "bytes": ("bytes",),
         "Writable": ("writable",), "Rows": ("rows",)}
 
@@ -383,7 +446,7 @@ def eval_sel(sel, spec):
 
 
 def _has_iter(d):
-    return d["k"] in ("str", "seq", "bytes", "baredict", "gplots")
+    return d["k"] in ("str", "seq", "bytes", "baredict", "gplots", "set", "gen")
 
 
 def ref_selected(el, spec):
@@ -392,7 +455,8 @@ def ref_selected(el, spec):
     if k == "tocsv":
         if not _get(c, "output.to_csv", True):
             return False
-        return (d["k"] == "hist" and d["dim"] in (1, 2)) or d["k"] == "rows"
+        # "those that implement a method rows()": an attribute rows that is not callable does not count
+        return (d["k"] == "hist" and d["dim"] in (1, 2)) or (d["k"] == "rows" and d["rk"] != "notcallable")
     if k == "write":
         if _get(c, "output.write", True) is False:
             return False
@@ -474,8 +538,10 @@ class _FakeSubprocess(object):
     def produce(self, command):
         if self.mode == "pdf":
             if command[0] == "pdflatex":       # the default command of LaTeXToPDF
+                # the stub writes the file LaTeXToPDF expects (for a name ending in .tex that is pdflatex's
+                # <output-directory>/<jobname>.pdf)
                 tex = command[-1]
-                out = tex.replace(".tex", ".pdf")
+                out = tex[:-4] + ".pdf" if tex.endswith(".tex") else tex.replace(".tex", ".pdf")
             else:
                 _, tex, out = command
             content = "CONV:pdf:" + _canon_str(tex, self.root)
@@ -873,7 +939,7 @@ def enc_data(o, root, text_kind=None):
         return {"k": "writable", "id": o.id}
     if isinstance(o, Rows):
         return {"k": "rows", "id": o.id}
-    if isinstance(o, (Foreign, BadWrite)):
+    if isinstance(o, (Foreign, BadWrite, LookAlike)):
         return {"k": "other", "cls": type(o).__name__, "id": o.id}
     return {"k": "other", "cls": type(o).__name__}
 
@@ -896,7 +962,7 @@ def norm_model_data(d, pipe=False):
     if k == "rows":
         return {"k": "rows", "id": d["id"]}
     if k == "other":
-        if d["cls"] in ("Foreign", "BadWrite"):
+        if d["cls"] in ("Foreign", "BadWrite", "LookAlike"):
             return {"k": "other", "cls": d["cls"], "id": d["id"]}
         return {"k": "other", "cls": d["cls"]}
     return d
@@ -991,7 +1057,9 @@ def _run_flow(el, element, clock, root, specs, idxs, is_b, alias):
         if has_ctx(v):
             cids.setdefault(id(v[1]), i)
     outs, marks, snaps = [], [], []
-    fs_check = el["k"] != "pdf"
+    # per-value directory snapshots; for LaTeXToPDF the files the converter stubs write (when a process of an earlier
+    # value ends) are left out of the comparison; real converter processes end when they like: no snapshots
+    fs_check = not (el["k"] == "pdf" and el.get("real"))
 
     def feed():
         for i, v in enumerate(flow):
@@ -1061,7 +1129,9 @@ def _run_flow(el, element, clock, root, specs, idxs, is_b, alias):
         rep = {"idx": idxs[i], "pulled": i < pulled, "pos": positions.get(ids[id(v)], []),
                "intact": before[i] == after[i]}
         if fs_check and i + 1 < len(snaps):
-            rep["fs_untouched"] = snaps[i] == snaps[i + 1]
+            stub = set(_canon_str(p, root) for p in clock.stub_writes)
+            strip = lambda sn: {"dirs": sn["dirs"], "files": {p: c for p, c in sn["files"].items() if p not in stub}}
+            rep["fs_untouched"] = strip(snaps[i]) == strip(snaps[i + 1])
         b_report.append(rep)
     # everything that is not a passed B value, in full detail
     b_pos = set(p for i, ps in positions.items() if is_b[i] for p in ps)
@@ -1265,10 +1335,12 @@ def compare(case, res, replies):
                or _cmp_run("second flow, A alone", res["a2"], m["a2"], is_pdf, pipe))
         if msg:
             return msg
-        if not m["pred2_ok"]:
+        if not is_pdf and not m["pred2_ok"]:
             return f"model: mergeBlocks differs from the blocks of the second run {m['run2']['blocks']}"
     if not is_pdf and m.get("ispattern") is False:
         return "model: IsPattern is false for the pattern of the case"
+    if m.get("seldoc") is not None and m["seldoc"] != ref_sel:
+        return f"documented selection rule: the model's …Doc predicate {m['seldoc']} vs the harness's {ref_sel}"
     if not is_pdf:
         if not m["pred_ok"]:
             return f"model: mergeBlocks differs from the blocks of the interleaved run {m['run']['blocks']}"
@@ -1281,6 +1353,13 @@ def compare(case, res, replies):
             return f"model: pick false {got} is not a prefix of the B values {[2 * i for i in b_idx]}"
         if m["run"]["err"] is None and len(got) != len(b_idx):
             return f"model: pick false has {len(got)} blocks for {len(b_idx)} B values"
+        # `consumedB`: exactly the unselected values standing before the failing one get through — in the model and
+        # in the real run
+        passed_impl = sum(1 for blk in res["full"]["blocks"] for x in blk
+                          if isinstance(x["t"], int) and x["t"] // 2 in set(b_idx))
+        if "consumed" in m and not (m["consumed"] == len(got) == passed_impl):
+            return (f"consumedB = {m['consumed']}, pick false has {len(got)} blocks, the real element passed "
+                    f"{passed_impl} unselected values")
     else:
         # the reference notions of the LaTeXToPDF theorems against the real run
         if m["passed"] != [2 * i for i, pp in enumerate(case["pat"]) if not pp][:len(m["passed"])]:
@@ -1288,6 +1367,10 @@ def compare(case, res, replies):
         if m["run"]["err"] is None and [norm_model_item(x) for x in m["pending"]] != \
                 [norm_model_item({k: v for k, v in x.items() if k != "pass"}) for x in m["run"]["tail"]]:
             return f"model: pending {m['pending']} is not what is yielded after the flow {m['run']['tail']}"
+        if m["keysok"] and m["specerr"] != res["full"]["err"]:
+            return f"pdfSpecErr {m['specerr']} is not the exception of the real run {res['full']['err']}"
+        if m.get("from_ok") is False:
+            return "model: pdfRunFrom from the fresh state differs from pdfRun"
         if m["run"]["err"] is None and res["full"]["err"] is None:
             key = lambda x: repr(sorted(x.items(), key=lambda kv: kv[0]))
             norm = lambda it: {"d": norm_model_data(it["d"]), "c": None if it["c"] is None else
@@ -1319,8 +1402,11 @@ def oracle(case, res):
             # the same element object used for a second flow
             sec = case["second"]
             res["full2"]["fs0"] = res["full"]["fs"]
+            # LaTeXToPDF keeps the processes of a run that raised: which of them are still in the pool depends on
+            # their timing, so what the second run yields for them is not compared then (the unselected values are)
+            loose = case["el"]["k"] == "pdf" and res["full"]["err"] is not None
             msg = _oracle(dict(case, A=sec["A"], B=sec["B"], pat=sec["pat"]),
-                          {"full": res["full2"], "a": res["a2"]}, SECOND_OFFSET)
+                          {"full": res["full2"], "a": res["a2"]}, SECOND_OFFSET, loose)
             if msg:
                 msg = "second use of the element object (after the flow " + \
                       f"A={case['A']} B={case['B']} pattern {case['pat']}): " + msg
@@ -1334,7 +1420,7 @@ def oracle(case, res):
                     res[run].pop(k, None)
 
 
-def _oracle(case, res, offset=0):
+def _oracle(case, res, offset=0, loose=False):
     el, pat = case["el"], case["pat"]
     full, a = res["full"], res["a"]
     is_pdf = el["k"] == "pdf"
@@ -1363,6 +1449,8 @@ def _oracle(case, res, offset=0):
             return f"{what}: the unselected value {v} was modified while passing"
         if rep.get("fs_untouched") is False:
             return f"{what}: the file system changed while the unselected value {v} was processed"
+    if loose:
+        return None
     # 1b. an element that selects nothing of the flow (all values unselected, or the empty flow) leaves the
     #     directory tree exactly as it was before the element was constructed and run
     if not case["A"] and full["fs"] != full["fs0"]:
@@ -1542,6 +1630,33 @@ def settings_vals(ids):
         {"d": {"k": "none"}, "c": {"output": {"changed": False, "filetype": "txt", "template": "missing.tex"}}},
         {"d": _hist(ids, 1, "num"), "c": {"histogram": {"to_graph": False}, "output": {"to_csv": 0, "changed": True},
                                           "variable": {"name": "leak"}, "group": 5}},
+        # entries the elements look into that are not dictionaries ("unrelated context")
+        {"d": i(), "c": {"output": 5}},
+        {"d": i(), "c": {"output": "csv", "histogram": "x"}},
+        {"d": {"k": "obj", "id": n()}, "c": {"output": ["a"], "histogram": 7, "variable": 3}},
+        {"d": {"k": "float", "v": "%d.5" % n()}, "c": {"histogram": None, "group": 5, "output": None}},
+        {"d": _hist(ids, 3, "num"), "c": {"output": 5, "histogram": 0}},
+        # strings that name files below directories that do not exist (nothing may create them)
+        {"d": {"k": "str", "v": "$R/nodir%d/plots/a.csv" % n()}, "c": {"output": {"filetype": "csv"}}},
+        {"d": {"k": "str", "v": "$R/nodir%d/b/c.png" % n()}, "c": {"output": {"filetype": "png", "changed": True}}},
+        {"d": {"k": "str", "v": "$R/nodir%d/sub/d.txt" % n()}},
+    ]
+
+
+def exotic_vals(ids):
+    """foreign values of further kinds: look-alike objects, a bool, a set, a generator, the empty tuple and string"""
+    n = ids.next
+    return [
+        {"d": {"k": "lookalike", "id": n()}},
+        {"d": {"k": "lookalike", "id": n()}, "c": {"histogram": {"to_graph": True}, "n": n()}},
+        {"d": {"k": "rows", "id": n(), "rk": "notcallable", "upd": False}},
+        {"d": {"k": "rows", "id": n(), "rk": "notcallable", "upd": False}, "c": {"output": {"to_csv": True}}},
+        {"d": {"k": "bool"}},
+        {"d": {"k": "set", "id": n()}},
+        {"d": {"k": "gen", "id": n()}},
+        {"d": {"k": "seq", "tuple": True, "items": []}},
+        {"d": {"k": "str", "v": ""}},
+        {"d": {"k": "bool"}, "c": {"foo": n()}},
     ]
 
 
@@ -1687,7 +1802,8 @@ def _configs(tier):
                 a_render_int, b_render_int))
 
     # ---- LaTeXToPDF
-    pfs = {"files": [["t1.tex", "tex one", 2000], ["t2.tex", "tex two", 2000], ["t3.tex", "tex three", 2000],
+    pfs = {"files": [["a.tex.d/t1.tex", "tex in a directory named .tex", 2000], ["x.tex.bak", "not an extension", 2000],
+                     ["t1.tex", "tex one", 2000], ["t2.tex", "tex two", 2000], ["t3.tex", "tex three", 2000],
                      ["t4.tex", "tex four", 3000], ["t5.tex", "tex five", 1000],
                      ["t2.pdf", "old pdf", 1500], ["t3.pdf", "old pdf", 2500], ["t4.pdf", "old pdf", 2500],
                      ["t5.pdf", "old pdf", 2500], ["nosrc.pdf", "old pdf", 2500]], "dirs": []}
@@ -1697,6 +1813,8 @@ def _configs(tier):
         tex = lambda name, extra=None: {"d": {"k": "str", "v": "$R/%s.tex" % name},
                                         "c": {"output": dict({"filetype": "tex"}, **(extra or {})), "n": n()}}
         return [tex("t1"), tex("t2"), tex("t3"), tex("t4"), tex("t5", {"changed": False}),
+                tex("a.tex.d/t1"),                     # only the extension is replaced (commit 7f5ee11)
+                {"d": {"k": "str", "v": "$R/x.tex.bak"}, "c": {"output": {"filetype": "tex"}, "n": n()}},
                 {"d": {"k": "str", "v": "$R/t1.tex"}, "c": {"output": {"filetype": "tex", "changed": True}}},
                 {"d": {"k": "str", "v": "$R/t3.tex"}, "c": {"output": {"filetype": "tex", "changed": 0}}},
                 {"d": {"k": "str", "v": "$R/new%d.tex" % n()}, "c": {"output": {"filetype": "tex"}}},
@@ -1717,7 +1835,8 @@ def _configs(tier):
     out.append(({"k": "pdf", "ow": False, "sched": None, "verbose": True, "default_cmd": True}, pfs, a_pdf, b_pdf))
 
     # ---- PDFToPNG
-    gfs = {"files": [["p1.pdf", "pdf one", 2000], ["p2.pdf", "pdf two", 2000], ["p2.png", "old png", 2500],
+    gfs = {"files": [["a.pdf.d/p.pdf", "pdf in a directory named .pdf", 2000], ["nopdfext", "x", 2000],
+                     ["p1.pdf", "pdf one", 2000], ["p2.pdf", "pdf two", 2000], ["p2.png", "old png", 2500],
                      ["p3.jpeg", "old jpeg", 2500]], "dirs": []}
 
     def a_png(ids, rng):
@@ -1725,6 +1844,9 @@ def _configs(tier):
         pdf = lambda name, extra=None: {"d": {"k": "str", "v": "$R/%s.pdf" % name},
                                         "c": {"output": dict({"filetype": "pdf"}, **(extra or {})), "n": n()}}
         return [pdf("p1"), pdf("p2"), pdf("p2", {"changed": True}), pdf("p2", {"changed": False}), pdf("p3"),
+                pdf("a.pdf.d/p"),
+                {"d": {"k": "str", "v": "$R/nopdfext"}, "c": {"output": {"filetype": "pdf"}, "n": n()}},
+                {"d": {"k": "str", "v": "$R/y.pdf.old"}, "c": {"output": {"filetype": "pdf"}}},
                 pdf("q%d" % n(), {"changed": 0}),
                 {"_e": 1, "d": {"k": "obj", "id": n()}, "c": {"output": {"filetype": "pdf"}}}]     # AttributeError
 
@@ -1947,7 +2069,10 @@ def _configs(tier):
     #      for the values it does select (they must not leak into what is made for the selected ones)
     def with_settings(el, mk_b):
         def b(ids, rng):
-            return mk_b(ids, rng) + [v for v in settings_vals(ids) if not ref_selected(el, v)]
+            extra = settings_vals(ids)
+            if el["k"] != "groupplots":        # (its deepcopy / group_by callables are not made for these)
+                extra = extra + exotic_vals(ids)
+            return mk_b(ids, rng) + [v for v in extra if not ref_selected(el, v)]
         return b
     return [(el, fs, mk_a, with_settings(el, mk_b)) for el, fs, mk_a, mk_b in out]
 
@@ -1968,12 +2093,16 @@ def _draw(rng, palette, n):
 
 def _one_none(vals):
     """None is a singleton: at most one bare None per flow, so that every flow value is an object of its own"""
-    seen, out = False, []
+    seen, out = set(), []
     for v in vals:
-        if v["d"]["k"] == "none" and v.get("c") is None:
-            if seen:
+        d = v["d"]
+        single = (d["k"] if d["k"] in ("none", "bool") else
+                  "emptytuple" if d["k"] == "seq" and d["tuple"] and not d["items"] else
+                  "emptystr" if d["k"] == "str" and d["v"] == "" else None)
+        if single and v.get("c") is None:      # None, True, () and "" are singletons
+            if single in seen:
                 continue
-            seen = True
+            seen.add(single)
         out.append(v)
     return out
 
@@ -2018,6 +2147,22 @@ def _mk_case(el, fs, A, B, pat, rng):
         n = len(pat) + 1
         el["sched"] = [[rng.randint(0, n), rng.choice([0, 0, 0, 1])] for _ in range(len(A))]
     return {"el": el, "fs": fs, "A": A, "B": B, "pat": pat}
+
+
+def _with_second(case, A2, B2, pat2, rng):
+    if case["el"]["k"] == "pdf":
+        names = set(v["d"].get("v") for v in case["A"])
+        keep = [v for v in A2 if v["d"].get("v") not in names]
+        drop = len(A2) - len(keep)
+        if drop:
+            A2 = keep
+            pat2 = [True] * len(A2) + [False] * len(B2)
+            rng.shuffle(pat2)
+        n = len(case["pat"]) + len(pat2) + 1
+        el = dict(case["el"])
+        el["sched"] = list(el["sched"]) + [[rng.randint(0, n), rng.choice([0, 0, 0, 1])] for _ in A2]
+        case = dict(case, el=el)
+    return dict(case, second={"A": A2, "B": B2, "pat": pat2})
 
 
 def _prepare(el, A, B, ids, second=False):
@@ -2099,7 +2244,7 @@ def gen_cases(ctx):
                 pats = list(_patterns(len(A), len(B)))
                 for pat in pats:
                     yield _mk_case(el, fs, A, B, pat, rng)
-                if real or el["k"] == "pdf" or d > 0:
+                if real or d > 0:
                     continue
                 # 2b. the element object used a second time (state kept between runs must not carry anything from
                 #     the unselected values of either flow)
@@ -2110,14 +2255,14 @@ def gen_cases(ctx):
                     for pat in rng.sample(pats, min(2, len(pats))):
                         pat2 = [True] * len(A2) + [False] * len(B2)
                         rng.shuffle(pat2)
-                        yield dict(_mk_case(el, fs, A, B, pat, rng), second={"A": A2, "B": B2, "pat": pat2})
+                        yield _with_second(_mk_case(el, fs, A, B, pat, rng), A2, B2, pat2, rng)
                 # 2c. flows whose values share objects
                 if (na, nb) in ((1, 1), (2, 1), (1, 2), (2, 2)):
                     for pat in rng.sample(pats, min(2, len(pats))):
                         for c in _alias_variants(_mk_case(el, fs, A, B, pat, rng), rng):
                             yield c
         # 2d. second use after a flow of unselected values only: nothing they carry may reach the next flow
-        if not real and el["k"] != "pdf":
+        if not real:
             for _ in range(2 if quick else 8):
                 ids = _Ids()
                 B1 = _draw(rng, mk_b(ids, rng), 3)
@@ -2129,7 +2274,7 @@ def gen_cases(ctx):
                     continue
                 pat2 = [True] * len(A2) + [False] * len(B2)
                 rng.shuffle(pat2)
-                yield dict(_mk_case(el, fs, [], B1, [False] * len(B1), rng), second={"A": A2, "B": B2, "pat": pat2})
+                yield _with_second(_mk_case(el, fs, [], B1, [False] * len(B1), rng), A2, B2, pat2, rng)
         # 3. longer flows, random interleavings
         if not quick and not real:
             for _ in range(20):
@@ -2160,7 +2305,7 @@ def _refresh_data(d, ids):
         d["v"] = 10000 + ids.next()
     elif k == "float":
         d["v"] = "%d.5" % (10000 + ids.next())
-    elif k in ("obj", "bytes", "writable", "badwrite", "rows", "hist"):
+    elif k in ("obj", "bytes", "writable", "badwrite", "rows", "hist", "lookalike", "set", "gen"):
         d["id"] = ids.next()
     elif k == "seq":
         for x in d["items"]:
@@ -2174,13 +2319,23 @@ def _refresh_data(d, ids):
 
 
 # ---- MANIFEST texts ------------------------------------------------------------------------
-LEVEL_TEXT = ("Lean 4 theorems about a transcribed model of the run loops of the ten selective elements, for all flows, "
-              "all interleavings and all element settings (no bound); the model is tied to /repo by a correspondence "
-              "check (blocks of outputs per consumed value, object identity, contexts, directory) on every "
-              "interleaving of up to 3+3 drawn values per element configuration, plus a direct oracle that evaluates "
-              "run(interleave(A,B)) = interleave(run(A),B), identity, integrity and directory snapshots on the real code.")
+LEVEL_TEXT = ("Lean 4 theorems about a transcribed model of the run loops of the ten selective elements (and GroupPlots), "
+              "for all flows, all interleavings and all element settings (no bound): the interleaving law "
+              "run(interleave(A,B)) = interleave(run(A),B) with blocks, state and exception, its readings (identity and "
+              "order of unselected values incl. the exact cut at an exception, independence of the results for selected "
+              "values, state untouched), the loop bodies pass what the DOCUMENTED selection rules reject, pipelines of "
+              "loop-shaped elements, locality.  LaTeXToPDF (process pool): identity/order of unselected values and the "
+              "places where the file system may change for every schedule; exception independent of B and schedule; "
+              "results as multisets for runs that end normally (false for failing runs: proved), also for a used object.  "
+              "The model is tied to /repo by a correspondence check (blocks of outputs per consumed value, object "
+              "identity, contexts, directory) on every interleaving of up to 3+3 drawn values per element configuration, "
+              "plus a direct oracle that evaluates the property on the real code.")
 LEVEL_NOTE = ("Trusted: Lean kernel (+ propext, Classical.choice, Quot.sound), the hand transcription validated by the "
               "correspondence run, the payload abstraction (texts, graphs, third-party context entries), converter "
-              "stubs, the JSON protocol.")
+              "stubs and schedules, the stand-ins for user callables, the JSON protocol.  'Without touching the file "
+              "system' is a theorem with content for Write, PDFToPNG, RunIf, MapGroup and LaTeXToPDF; for ToCSV, "
+              "RenderLaTeX, HistToGraph, IterateBins, MapBins it rests on the oracle's directory snapshots.  "
+              "THEOREMS lists the 40 theorems that carry the property; instances, unfoldings and free theorems are in "
+              "AUX_THEOREMS.")
 TECHNIQUE = "Lean 4 proof over hand-written model + correspondence check over all interleavings of small flows"
 DESIGN_REF = "DESIGN.md section 3, C10"
